@@ -5,7 +5,7 @@ import json
 from props import functional_props
 
 FUNCTIONAL = set(functional_props.PLAN)
-OTHERS = {"C04", "C01", "C02", "C20", "C05"}
+OTHERS = {"C04", "C01", "C02", "C20", "C05", "C16", "C17", "C15"}
 ALL = FUNCTIONAL | OTHERS
 
 
@@ -27,6 +27,15 @@ def run(prop, out, drv):
     if prop == "C05":
         from props import c05
         return c05.run(out, drv)
+    if prop == "C16":
+        from props import c16
+        return c16.run(out, drv)
+    if prop == "C17":
+        from props import c17
+        return c17.run(out, drv)
+    if prop == "C15":
+        from props import c15
+        return c15.run(out, drv)
     raise SystemExit(f"unknown property {prop}")
 
 
